@@ -158,7 +158,7 @@ KERNELS = [
     K("c08::k_time_wrapping_add_span", pre=lambda a: And(time_ok(a), span_time_ok(a, 4)),
       claims=[("Time::wrapping_add(Span) == (t + sum of units) mod 24h exactly, outside the F2 role (full unit limits)",
                lambda a, o: And(o.is_some, time_is(o.some, (tod(a) + span_time_total(a, 4)) % DAY_NS)))],
-      bounds=B_TS, known=[("F2", role_f2(4))], tier="thorough", timeout=1800),
+      bounds=B_TS, known=[("F2", role_f2(4))], tier="deep", timeout=1800),
     K("c08::k_time_checked_add_span", pre=lambda a: And(time_ok(a), span_time_ok(a, 4)),
       claims=[("Time::checked_add(Span) fails exactly when the result leaves the day",
                lambda a, o: And(o.is_some, opt_is(o.some, in_range(tod(a) + span_time_total(a, 4), 0, DAY_NS - 1),
@@ -189,28 +189,28 @@ KERNELS = [
       claims=[("Date::checked_add(years, months): month arithmetic with the day clamped to the target month; Err iff year out of range",
                lambda a, o: And(o.is_some, opt_is(o.some, in_range(ref_add_months(a[0], a[1], a[2], sgn(a[3]) * a[4], sgn(a[3]) * a[5])[0], -9999, 9999),
                                                   lambda r: eq3(r.ints(), ref_add_months(a[0], a[1], a[2], sgn(a[3]) * a[4], sgn(a[3]) * a[5])))))],
-      bounds={**B_DATE, 4: (0, LIM["years"]), 5: (0, LIM["months"])}, split=(0, 64), timeout=900, tier="thorough"),
+      bounds={**B_DATE, 4: (0, LIM["years"]), 5: (0, LIM["months"])}, split=(0, 64), timeout=900, tier="deep"),
     K("c08::k_date_add_wd", pre=lambda a: And(date_ok(a), in_range(a[4], 0, LIM["weeks"]), in_range(a[5], 0, LIM["days"])),
       claims=[("Date::checked_add(weeks, days) == epoch day + 7w + d; Err iff outside -9999-01-01..=9999-12-31",
                lambda a, o: And(o.is_some, opt_is(o.some[0], in_range(o.some[1].i + sgn(a[3]) * (7 * a[4] + a[5]), MIN_DAY, MAX_DAY),
                                                   lambda r: And(ref_valid_date(*r[0].ints()), r[1].i == o.some[1].i + sgn(a[3]) * (7 * a[4] + a[5])))))],
-      bounds={**B_DATE, 4: (0, LIM["weeks"]), 5: (0, LIM["days"])}, split=(0, 64), timeout=900, tier="thorough"),
+      bounds={**B_DATE, 4: (0, LIM["weeks"]), 5: (0, LIM["days"])}, split=(0, 64), timeout=900, tier="deep"),
     K("c08::k_date_add_cal", pre=lambda a: And(date_ok(a), cal_ok(a, 3)),
       claims=[("Date::checked_add(years, months, weeks, days): months first with day clamp, then days on epoch days; Err iff out of range",
                date_add_cal_claim(1))],
-      bounds=B_CAL, split=(0, 64), tier="thorough", timeout=900),
+      bounds=B_CAL, split=(0, 64), tier="deep", timeout=900),
     K("c08::k_date_sub_cal", pre=lambda a: And(date_ok(a), cal_ok(a, 3)),
       claims=[("Date::checked_sub == checked_add of the negated span", date_add_cal_claim(-1))],
-      bounds=B_CAL, split=(0, 64), tier="thorough", timeout=900),
+      bounds=B_CAL, split=(0, 64), tier="deep", timeout=900),
     K("c08::k_dt_add_span", pre=lambda a: And(ref_valid_date(a[0], a[1], a[2]), ref_valid_time(a[3], a[4], a[5], a[6]), in_range(a[0], 2096, 2104),
                                             in_range(a[8], 0, 8), in_range(a[9], 0, 100), in_range(a[10], 0, 60), in_range(a[11], 0, 400),
                                             in_range(a[12], 0, 100000), in_range(a[13], 0, 6000000), in_range(a[14], 0, 400000000), in_range(a[15], 0, LIM["nanoseconds"])),
       claims=[("DateTime::checked_add(span) (date in 2096..2104, moderate unit magnitudes): years+months first with the day clamped, then weeks+days, then the time units carried across midnight in 24-hour days",
                dt_add_claim(1))],
       bounds={0: (2096, 2104), 1: (1, 12), 2: (1, 31), 3: (0, 23), 4: (0, 59), 5: (0, 59), 6: (0, 999999999), 8: (0, 8), 9: (0, 100), 10: (0, 60), 11: (0, 400),
-              12: (0, 100000), 13: (0, 6000000), 14: (0, 400000000), 15: (0, LIM["nanoseconds"])}, timeout=300),
+              12: (0, 100000), 13: (0, 6000000), 14: (0, 400000000), 15: (0, LIM["nanoseconds"])}, timeout=900, tier="deep"),
     K("c08::k_dt_add_sdur", pre=lambda a: And(ref_valid_date(a[0], a[1], a[2]), ref_valid_time(a[3], a[4], a[5], a[6]), sdur_ok(a[7], a[8]), in_range(a[0], 2096, 2104)),
       claims=[("DateTime::checked_add(SignedDuration) (date in 2096..2104, every duration) == exact instant arithmetic; Err iff out of range; saturating_add clamps",
                dt_add_sdur_claim)],
-      bounds={0: (2096, 2104), 1: (1, 12), 2: (1, 31), 3: (0, 23), 4: (0, 59), 5: (0, 59), 6: (0, 999999999), 8: (-999999999, 999999999)}, timeout=300),
+      bounds={0: (2096, 2104), 1: (1, 12), 2: (1, 31), 3: (0, 23), 4: (0, 59), 5: (0, 59), 6: (0, 999999999), 8: (-999999999, 999999999)}, timeout=900, tier="deep"),
 ]
